@@ -284,7 +284,9 @@ def dfs_small(rec, case):
     exhausted = False
     limit = case['limit']
     while leaves < limit:
-        sim = scen.make_sim('T', policy='fifo', prefix=prefix)
+        sim = scen.make_sim('T', policy='fifo', prefix=prefix,
+                            yield_prob=1.0 if case.get('yields') else 0.0)
+        sim.sched.yield_budget = case.get('yields') or 0
         R = hist.Runner(sim)
 
         def V(key, msg):
@@ -296,7 +298,9 @@ def dfs_small(rec, case):
             sim.quiesce()
             n0 = len(sim.sched.trace)
             R.send(s, 'text')
-            R.upgrade_start(s, 'correct')
+            R.upgrade_start(s, case.get('script', 'correct'))
+            if case.get('latepoll'):
+                R.poll(s)
             R.send(s, case.get('kind2', 'binary'))
             sim.quiesce()
             drain(R)
@@ -318,6 +322,9 @@ def dfs_small(rec, case):
         prefix = [c for n, c in trace[:j]] + [trace[j][1] + 1]
     rec.extra['dfs_schedules'] = leaves
     rec.extra['dfs_tree_exhausted'] = exhausted
+    rec.extra['dfs_trees'] = ['%s late=%s yields<=%s: %d schedules, exhausted=%s' % (
+        case.get('script', 'correct'), case.get('latepoll', False),
+        case.get('yields', 0), leaves, exhausted)]
     rec.extra['dfs_delivery_outcomes'] = sorted(shapes)
     for sh in shapes:
         rec.key('dfs/' + sh)
@@ -398,8 +405,16 @@ def plan(tier, seed):
     if tier == 'thorough':
         shards.append({'dfs': True, 'limit': 200000, 'kind2': 'binary'})
         shards.append({'dfs': True, 'limit': 200000, 'kind2': 'json'})
+        for script in ('correct', 'eager'):
+            for late in (False, True):
+                for y in (1, 2):
+                    shards.append({'dfs': True, 'limit': 150000,
+                                   'kind2': 'binary', 'script': script,
+                                   'latepoll': late, 'yields': y})
     else:
         shards.append({'dfs': True, 'limit': 300, 'kind2': 'binary'})
+        shards.append({'dfs': True, 'limit': 1500, 'kind2': 'binary',
+                       'script': 'eager', 'latepoll': True, 'yields': 1})
     return shards
 
 
